@@ -123,25 +123,35 @@ Proof.
       eapply contract_panic_needs_bounded; exact Hit.
 Qed.
 
-(* ... and the observation of that draw passes the decidable contract check [draw_ok] *)
-Lemma sdraw_obs_ok ws top maxw maxh : 0 <= maxw < 65536 -> 0 <= maxh < 65536 ->
-  draw_ok ((ws, maxw, maxh), dres_obs (snd (sdraw ws top maxw maxh))) = true.
+(* every widget of the tree drawn in that state is within the maximum it was given *)
+Lemma list_finish_at_items top drawcur (s s' : wsurface) maxw W : wf_tree s -> 0 <= maxw < 65536 ->
+  list_finish_at top drawcur s maxw = Some s' -> Forall (placed (list_off drawcur) W) (s_kids s) ->
+  Forall (fun k => s_w (item_surf drawcur k) <= W) (s_kids s').
 Proof.
-  intros Hw Hh.
-  destruct ws as [r soft lines|ch|lines|chars|drawcur gap items];
-    try (cbn [sdraw snd]; exact (draw_run_ok _ maxw maxh Hw Hh)).
+  intros Hs Hw. unfold list_finish_at. destruct (top =? 0); [apply list_finish_items; assumption|].
+  destruct drawcur; cbn [negb].
+  - destruct (gutter_keeps (Z.to_nat (s_h s)) s 0 Hs ltac:(lia)) as (s1 & E1 & _ & _ & _ & Hk1).
+    rewrite E1. intros E Hk; injection E as <-. rewrite Hk1.
+    eapply Forall_impl; [|exact Hk]. apply (placed_item_surf true).
+  - intros E Hk; injection E as <-. eapply Forall_impl; [|exact Hk]. apply (placed_item_surf false).
+Qed.
+
+Lemma tree_ok_sdraw : forall ws top maxw maxh s, 0 <= maxw < 65536 -> 0 <= maxh < 65536 ->
+  snd (sdraw ws top maxw maxh) = DOk s -> tree_ok ws maxw maxh (observe s) = true.
+Proof.
+  induction ws as [r soft lines|ch IH|lines|chars|drawcur gap items];
+    intros top maxw maxh s Hw Hh Ed;
+    try (cbn [sdraw snd] in Ed; exact (tree_ok_draw _ maxw maxh s Hw Hh Ed));
+    match type of Ed with snd (sdraw ?w _ _ _) = _ =>
+      pose proof (sdraw_contract_all w top maxw maxh Hw Hh) as Hc end;
+    unfold sdraw_contract in Hc; rewrite Ed in Hc; destruct Hc as (Hwf & Hsw & Hsh);
+    cbn [tree_ok]; destruct (observe_shape s) as (Eow & Eoh & Ek); rewrite Eow, Eoh;
+    replace ((s_w s <=? maxw) && (s_h s <=? maxh)) with true by lia; cbn [andb].
   - (* Center *)
-    pose proof (sdraw_contract_all (WCenter ch) top maxw maxh Hw Hh) as Hc. unfold sdraw_contract in Hc.
-    unfold draw_ok.
-    destruct (snd (sdraw (WCenter ch) top maxw maxh)) as [|s] eqn:Ed; [cbn; exact Hc|].
-    destruct Hc as (Hwf & Hsw & Hsh). cbn [dres_obs].
-    replace (0 =? 1) with false by reflexivity. cbn [andb].
-    destruct (observe_shape s) as (-> & -> & Ek). rewrite (observe_wf s Hwf).
-    replace ((0 =? 0) && (s_w s <=? maxw) && (s_h s <=? maxh) && true) with true by lia.
-    cbn [andb is_centering].
     cbn [sdraw] in Ed. unfold unbounded in Ed.
     destruct ((maxh =? 65535) || (maxw =? 65535)) eqn:Eu; [discriminate|].
     pose proof (sdraw_contract_all ch top maxw maxh Hw Hh) as Hcc. unfold sdraw_contract in Hcc.
+    specialize (IH top maxw maxh).
     destruct (sdraw ch top maxw maxh) as [t' rr]. cbn [fst snd] in *.
     destruct rr as [|chS].
     + pose proof (center_draw_spec (fun _ _ => cres_of DPanic) maxw maxh ltac:(lia) ltac:(lia)) as H.
@@ -150,15 +160,37 @@ Proof.
       destruct (center_margins (fun _ _ => cres_of (DOk chS)) maxw maxh chS ltac:(lia) ltac:(lia)
                   eq_refl Hcw Hch) as (s2 & offX & offY & E2 & E3 & E4 & Ek2 & M).
       rewrite E2 in Ed. injection Ed as <-.
-      rewrite Ek, Ek2. cbn [map]. rewrite E3, E4. apply centred_ok; tauto.
+      rewrite Ek, Ek2. cbn [map kid_otree]. rewrite E3, E4.
+      rewrite centred_ok by tauto. cbn [andb]. apply IH; [assumption | assumption | reflexivity].
   - (* list.Dynamic *)
-    pose proof (sdraw_contract_all (WList drawcur gap items) top maxw maxh Hw Hh) as Hc.
-    unfold sdraw_contract in Hc. unfold draw_ok.
-    destruct (snd (sdraw (WList drawcur gap items) top maxw maxh)) as [|s] eqn:Ed; [cbn; exact Hc|].
-    destruct Hc as (Hwf & Hsw & Hsh). cbn [dres_obs].
-    replace (0 =? 1) with false by reflexivity. cbn [andb].
-    destruct (observe_shape s) as (-> & -> & Ek). rewrite (observe_wf s Hwf).
-    cbn [is_centering]. lia.
+    cbn [sdraw] in Ed. unfold list_draw_at, unbounded in Ed.
+    destruct ((maxh =? 65535) || (maxw =? 65535)) eqn:Eu; [discriminate|].
+    fold (list_off drawcur) in Ed.
+    set (W := u16 (maxw - list_off drawcur)) in *.
+    assert (HW : 0 <= W < 65536) by apply u16_range.
+    set (its := skipn (Z.to_nat top) items) in *.
+    pose proof (new_surface_wf_tree wblank maxw maxh Hw Hh) as Hs0.
+    pose proof (list_loop_spec _ (new_surface wblank maxw maxh) (list_off drawcur) 0 gap maxh Hs0 (items_wf its W HW)) as Hl.
+    destruct (list_loop (new_surface wblank maxw maxh) _ (list_off drawcur) 0 gap maxh) as [s1|] eqn:El; [|discriminate].
+    destruct Hl as (L1 & _ & _).
+    destruct (list_finish_at top drawcur s1 maxw) as [s2|] eqn:Ef; [|discriminate].
+    cbn [snd] in Ed. injection Ed as <-.
+    apply list_kids_ok.
+    eapply list_finish_at_items; [exact L1 | exact Hw | exact Ef|].
+    eapply list_loop_placed; [apply (items_within its W HW) | | exact El]. constructor.
+Qed.
+
+(* ... and the observation of that draw passes the decidable contract check [draw_ok] *)
+Lemma sdraw_obs_ok ws top maxw maxh : 0 <= maxw < 65536 -> 0 <= maxh < 65536 ->
+  draw_ok ((ws, maxw, maxh), dres_obs (snd (sdraw ws top maxw maxh))) = true.
+Proof.
+  intros Hw Hh. unfold draw_ok.
+  pose proof (sdraw_contract_all ws top maxw maxh Hw Hh) as Hc. unfold sdraw_contract in Hc.
+  destruct (snd (sdraw ws top maxw maxh)) as [|s] eqn:Ed; cbn [dres_obs].
+  - cbn. exact Hc.
+  - destruct Hc as (Hwf & _).
+    replace (0 =? 1) with false by reflexivity.
+    rewrite (observe_wf s Hwf), (tree_ok_sdraw ws top maxw maxh s Hw Hh Ed). reflexivity.
 Qed.
 
 (* ------------------------------------------------------------------ histories *)
@@ -358,15 +390,16 @@ Proof.
   apply anchored_fields_sound; assumption.
 Qed.
 
-(* ------------------------------------------------------------------ the guard is needed *)
+(* ------------------------------------------------------------------ the guard is not vacuous *)
 
-(* a Dynamic whose first item is an empty Text (no line, height 0) with Gap 0: the first Draw
-   records top = 1, the second Draw of the same value no longer returns the first child (nor
-   the cursor surface) — finding list-empty-first-item *)
+(* list.Dynamic keeps a scroll position between draws (that state is C19's subject).  It can
+   move without any event: a Dynamic whose first item has height 0 (an empty Text) with Gap 0
+   anchors at item 1 on its first Draw, so the second Draw of the same value returns 2 children
+   where a fresh value returns 3.  The contract clauses hold in both (hist_run_contract). *)
 Definition empty_first_list : wspec :=
   WList true 0 [WText false true []; WText false true [[(4, 1)]]; WText false true [[(5, 1)]]].
 
-Lemma list_history_dependent :
+Lemma list_scroll_state_moves :
   step_anchored (empty_first_list, 10, 4) = false /\
   hist_tops 0 [(empty_first_list, 10, 4); (empty_first_list, 10, 4)] = [0; 1] /\
   map (fun o : draw_obs => zlen (o_kids (snd o)))
